@@ -395,4 +395,199 @@ theorem rest_stepM {s : St} (h : Inv s) {x : Micro} {rest : List Micro} (hm : s.
      simp_all [wfM, Micro.mAllowed, Micro.isReader, Micro.clrM, Micro.relM, Micro.isRelM, firstRelIsStore, Prog.isBusy, busyOf] <;>
      first | omega | (intros; right; right; right; omega))
 
+theorem inv_stepW {s : St} (h : Inv s) {x : Micro} {rest : List Micro} (hw : s.w = x :: rest) :
+    Good (afterW s x rest) := by
+  cases hx : (afterW s x rest).exited
+  · right
+    obtain ⟨h1, h2⟩ := num_stepW h hw hx
+    obtain ⟨h3, h4, h5, h6, h7, h8, h9⟩ := rest_stepW h hw hx
+    exact ⟨h1, h2, h3, h4, h5, h6, h7, h8, h9⟩
+  · left; exact hx
+
+theorem inv_stepM {s : St} (h : Inv s) {x : Micro} {rest : List Micro} (hm : s.m = x :: rest) :
+    Good (afterM s x rest) := by
+  cases hx : (afterM s x rest).exited
+  · right
+    obtain ⟨h1, h2⟩ := num_stepM h hm hx
+    obtain ⟨h3, h4, h5, h6, h7, h8, h9⟩ := rest_stepM h hm hx
+    exact ⟨h1, h2, h3, h4, h5, h6, h7, h8, h9⟩
+  · left; exact hx
+
+theorem hPath_of_get {i : Nat} {p : HPath} (h : handlerPaths[i]? = some p) : hPathOk p = true :=
+  List.all_eq_true.mp handlerPaths_ok p (List.mem_of_getElem? h)
+
+theorem wPath_of_get {i : Nat} {p : List Eff} (h : workerPaths[i]? = some p) : wPathOk p = true :=
+  List.all_eq_true.mp workerPaths_ok p (List.mem_of_getElem? h)
+
+macro "numtac" s:ident : tactic => `(tactic| (
+  simp only [tokens, owed, exec, wsum_nil, wsum_cons, List.length_cons, List.length_nil] at *
+  cases hr : ($s).reloading <;> cases ha : anyRelM ($s).m <;> cases hpd : ($s).pending <;>
+  simp only [hr, ha, hpd, Bool.toNat_true, Bool.toNat_false, Bool.or_true, Bool.or_false, Bool.and_true, Bool.and_false,
+    Bool.true_and, Bool.false_and, Bool.true_or, Bool.false_or, Bool.not_true, Bool.not_false, List.length_nil,
+    forall_const, true_implies, Bool.false_eq_true, Bool.true_eq_false, eq_self, false_and, and_false, and_true, true_and,
+    not_true_eq_false, not_false_eq_true, false_implies, implies_true] at * <;> omega))
+
+theorem good_step {s s' : St} (h : Good s) (a : Act) (hs : step s a = some s') : Good s' := by
+  unfold step at hs
+  cases hex : s.exited
+  case true => simp [hex] at hs
+  simp only [hex, Bool.false_eq_true, if_false] at hs
+  have hI : Inv s := by
+    rcases h with h | h
+    · rw [hex] at h; cases h
+    · exact h
+  cases a <;> simp only at hs
+  case stepM =>
+    split at hs
+    · cases hs
+    · rename_i x rest hm
+      simp only [Option.some.injEq] at hs
+      rw [← hs]; exact inv_stepM hI hm
+  case stepW =>
+    split at hs
+    · cases hs
+    · rename_i x rest hw
+      simp only [Option.some.injEq] at hs
+      rw [← hs]; exact inv_stepW hI hw
+  all_goals obtain ⟨tok, sup, wfw, wfm, rel1, store, note, busy, act⟩ := hI
+  all_goals simp only [tokens, owed] at tok sup
+  case sig k =>
+    split at hs
+    · rename_i hm
+      have hm' : s.m = [] := by simpa using hm
+      simp only [Option.some.injEq] at hs
+      subst hs
+      right
+      refine ⟨?_, ?_, ?_, ?_, ?_, ?_, ?_, ?_, ?_⟩ <;>
+        simp_all [tokens, owed, wfM, Micro.mAllowed, Micro.relM, Micro.isRelM, Micro.sigTok, Micro.sup, firstRelIsStore,
+          Micro.isReader, Micro.clrM]
+    · cases hs
+  case swallow k =>
+    split at hs
+    · simp only [Option.some.injEq] at hs; subst hs; right
+      exact ⟨tok, sup, wfw, wfm, rel1, store, note, busy, act⟩
+    · cases hs
+  case term =>
+    split at hs
+    · simp only [Option.some.injEq] at hs; subst hs; left; rfl
+    · cases hs
+  case cliSend =>
+    split at hs
+    · simp only [Option.some.injEq] at hs; subst hs; right
+      refine ⟨?_, ?_, ?_, ?_, ?_, ?_, ?_, ?_, ?_⟩ <;> simp_all [tokens, owed, wfM, wfW, Micro.mAllowed, Micro.relM, Micro.isRelM, Micro.sigTok, Micro.sup, Micro.tokW, firstRelIsStore,
+          Micro.isReader, Micro.clrM, exec, Prog.isBusy, Prog.cliAccepts]
+    · cases hs
+  case closeMgr =>
+    split at hs
+    · simp only [Option.some.injEq] at hs; subst hs; right
+      refine ⟨?_, ?_, ?_, ?_, ?_, ?_, ?_, ?_, ?_⟩ <;> simp_all [tokens, owed, wfM, wfW, Micro.mAllowed, Micro.relM, Micro.isRelM, Micro.sigTok, Micro.sup, Micro.tokW, firstRelIsStore,
+          Micro.isReader, Micro.clrM, exec, Prog.isBusy, Prog.cliAccepts]
+    · cases hs
+  case closeG =>
+    split at hs
+    · simp only [Option.some.injEq] at hs; subst hs; right
+      refine ⟨?_, ?_, ?_, ?_, ?_, ?_, ?_, ?_, ?_⟩ <;> simp_all [tokens, owed, wfM, wfW, Micro.mAllowed, Micro.relM, Micro.isRelM, Micro.sigTok, Micro.sup, Micro.tokW, firstRelIsStore,
+          Micro.isReader, Micro.clrM, exec, Prog.isBusy, Prog.cliAccepts] <;> omega
+    · cases hs
+  case gStore =>
+    split at hs
+    · rename_i hg
+      simp only [Option.some.injEq] at hs; subst hs; right
+      refine ⟨?_, ?_, ?_, ?_, ?_, ?_, ?_, ?_, ?_⟩
+      · numtac s
+      · numtac s
+      all_goals (simp_all [wfM, wfW, Micro.mAllowed, Micro.relM, Micro.isRelM, Micro.sigTok, Micro.sup, Micro.tokW, firstRelIsStore,
+          Micro.isReader, Micro.clrM, exec, Prog.isBusy, Prog.cliAccepts] <;> first | omega | (intros; right; right; right; omega))
+    · cases hs
+  case gEnd =>
+    split at hs
+    · rename_i hg
+      simp only [Option.some.injEq] at hs; subst hs; right
+      refine ⟨?_, ?_, ?_, ?_, ?_, ?_, ?_, ?_, ?_⟩
+      · numtac s
+      · numtac s
+      all_goals (simp_all [wfM, wfW, Micro.mAllowed, Micro.relM, Micro.isRelM, Micro.sigTok, Micro.sup, Micro.tokW, firstRelIsStore,
+          Micro.isReader, Micro.clrM, exec, Prog.isBusy, Prog.cliAccepts] <;> first | omega | (intro hb; rcases busy hb with h | h | h | h <;> simp [h]; omega))
+    · cases hs
+  case gRead =>
+    split at hs
+    · rename_i hg
+      simp only [Option.some.injEq] at hs; subst hs; right
+      refine ⟨?_, ?_, ?_, ?_, ?_, ?_, ?_, ?_, ?_⟩
+      · numtac s
+      · numtac s
+      all_goals (by_cases hb : s.progress.isBusy = true <;> simp_all [wfM, wfW, Micro.mAllowed, Micro.relM, Micro.isRelM, Micro.sigTok, Micro.sup, Micro.tokW, firstRelIsStore,
+          Micro.isReader, Micro.clrM, exec, Prog.isBusy, Prog.cliAccepts] <;> first | omega | (intros; right; right; right; omega))
+    · cases hs
+  case gWrite =>
+    split at hs
+    · rename_i hg
+      simp only [Option.some.injEq] at hs; subst hs; right
+      refine ⟨?_, ?_, ?_, ?_, ?_, ?_, ?_, ?_, ?_⟩
+      · numtac s
+      · numtac s
+      all_goals (simp_all [wfM, wfW, Micro.mAllowed, Micro.relM, Micro.isRelM, Micro.sigTok, Micro.sup, Micro.tokW, firstRelIsStore,
+          Micro.isReader, Micro.clrM, exec, Prog.isBusy, Prog.cliAccepts])
+    · cases hs
+  case wake i =>
+    split at hs
+    · rename_i hc
+      simp only [Bool.and_eq_true, List.isEmpty_iff] at hc
+      obtain ⟨hm, hn⟩ := hc
+      split at hs
+      · rename_i p hp
+        split at hs
+        · rename_i hr
+          have hr' : p.reloading = s.reloading := by simpa using hr
+          simp only [Option.some.injEq] at hs; subst hs; right
+          have hok := hPath_of_get hp
+          simp only [hPathOk, Bool.and_eq_true, decide_eq_true_eq, beq_iff_eq] at hok
+          obtain ⟨⟨⟨h1, h2⟩, h3⟩, h4⟩ := hok
+          rw [hm] at tok sup store note busy act
+          cases hrl : s.reloading <;> rw [hr', hrl] at h4 <;>
+            simp only [Bool.false_eq_true, if_false, if_true, Bool.and_eq_true, Bool.not_eq_true', beq_iff_eq] at h4
+          · obtain ⟨h5, h6⟩ := h4
+            refine ⟨?_, ?_, ?_, ?_, ?_, ?_, ?_, ?_, ?_⟩ <;>
+              simp_all [tokens, owed] <;>
+              (intro hb; rcases busy hb with h | h | h <;> simp [h])
+          · obtain ⟨⟨h5, h6⟩, h7⟩ := h4
+            refine ⟨?_, ?_, ?_, ?_, ?_, ?_, ?_, ?_, ?_⟩ <;>
+              simp_all [tokens, owed] <;>
+              (intro hb; rcases busy hb with h | h | h <;> simp [h])
+        · cases hs
+      · cases hs
+    · cases hs
+  case wStart i =>
+    split at hs
+    · rename_i hc
+      have hw : s.w = [] := by simpa using hc
+      split at hs
+      · rename_i k q p hq hp
+        simp only [Option.some.injEq] at hs; subst hs; right
+        have hok := wPath_of_get hp
+        simp only [wPathOk, Bool.and_eq_true, beq_iff_eq] at hok
+        obtain ⟨⟨h1, h2⟩, h3⟩ := hok
+        rw [hw] at tok sup busy act
+        rw [hq] at tok sup
+        refine ⟨?_, ?_, ?_, ?_, ?_, ?_, ?_, ?_, ?_⟩
+        · numtac s
+        · numtac s
+        all_goals (simp_all <;> (intro hb; rcases busy hb with h | h | h <;> simp [h]))
+      · cases hs
+    · cases hs
+
+theorem good_init : Good init := by
+  right
+  refine ⟨?_, ?_, ?_, ?_, ?_, ?_, ?_, ?_, ?_⟩ <;> simp [init, tokens, owed, wfW, wfM, firstRelIsStore, Prog.isBusy]
+
+theorem reachable_good {s : St} (h : Reachable s) : Good s := by
+  induction h with
+  | init => exact good_init
+  | step a _ hs ih => exact good_step ih a hs
+
+theorem reachable_inv {s : St} (h : Reachable s) (hx : s.exited = false) : Inv s := by
+  rcases reachable_good h with h | h
+  · rw [hx] at h; cases h
+  · exact h
+
 end DaeVerif.C20
